@@ -1746,6 +1746,12 @@ impl DnsOutgoing {
         self.id = id;
     }
 
+    /// Multicast messages are sent with ID 0 (RFC 6762 section 18.1); a unicast
+    /// reply must carry the ID set by `set_id`.
+    pub fn set_multicast(&mut self, multicast: bool) {
+        self.multicast = multicast;
+    }
+
     pub const fn is_query(&self) -> bool {
         (self.flags & FLAGS_QR_MASK) == FLAGS_QR_QUERY
     }
